@@ -42,3 +42,12 @@ func verifEvent(kind string, obj any) {
 		(*f)(kind, obj)
 	}
 }
+
+var verifDigestMask atomic.Uint64
+
+// VerifSetLevel0DigestMask makes the built-in digester keep only the masked bits of its
+// first-level digest (0 = off), so that first-level collisions of the production digester
+// (pooled, BLAKE3 at deeper levels) can be exercised.
+func VerifSetLevel0DigestMask(mask uint64) { verifDigestMask.Store(mask) }
+
+func verifLevel0DigestMask() uint64 { return verifDigestMask.Load() }
